@@ -289,6 +289,53 @@ def run(F, chk):
                 rf.ok(key, b.where(bi), "Timeout::%s" % var)
             else:
                 rf.broke("cannot resolve the Timeout operand at %s" % b.where(bi))
+    # ---------------- R-C09-g a broadcast reaches every live worker ---------------
+    # `OK only if every worker that was alive acknowledged`: the set a request is scattered to may leave out only workers
+    # that are gone.  In scatter_on's worker filter the run state is compared with RunState::Stopped and nothing else
+    # (a Stopping worker - the old half of an upgrade - still serves its sessions and must receive and acknowledge).
+    rg = chk.rule("R-C09-g", "T12", "scatter_on leaves out stopped workers only", floor=1)
+    import inline
+    compared = {}
+    for cp in F.family("sozu::command::server::Server::scatter_on")[1:]:
+        cb = inline.threaded(F, inline.inlined(F, F.body(cp), policy="all", keep_pred=lambda fn: not fn.startswith(("sozu::", "<sozu::")), depth=2))
+        for bi, t in cb.calls():
+            fn = t.get("fn") or ""
+            if not (fn.endswith("PartialEq::ne") or fn.endswith("PartialEq::eq")) or not (t.get("recv") or "").endswith("::RunState"):
+                continue
+            rg.fn(cp)
+            for a in t["args"]:
+                l = op_local(a)
+                for _ in range(6):
+                    d = cb.single_def(l) if l is not None else None
+                    if not (d and d[2] == "assign"):
+                        break
+                    rv = d[3]
+                    if rv["k"] == "use" and "promoted" in rv["a"]:
+                        pv = F.promoted_value(rv["a"].get("pof", cb.path), rv["a"]["promoted"])
+                        if pv and pv[0] in ("variant", "var"):
+                            compared.setdefault(pv[2], []).append((cb, bi))
+                        break
+                    if rv["k"] in ("use", "cast") and op_local(rv["a"]) is not None:
+                        l = op_local(rv["a"])
+                        continue
+                    if rv["k"] in ("ref", "raw") and isinstance(rv["pl"], int):
+                        l = rv["pl"]
+                        continue
+                    if rv["k"] in ("ref", "raw") and isinstance(rv["pl"], dict) and rv["pl"]["p"] == ["*"]:
+                        l = rv["pl"]["l"]
+                        continue
+                    if rv["k"] == "agg" and rv.get("ak") == "adt" and not rv["ops"]:
+                        compared.setdefault(rv["var"], []).append((cb, bi))
+                    break
+    key = "scatter_on filter|run_state compared with"
+    if not rg.require(compared, "scatter_on: no comparison of a worker's run_state found in its filter"):
+        pass
+    elif set(compared) <= {"Stopped"}:
+        rg.ok(key, compared["Stopped"][0][0].where(compared["Stopped"][0][1]), "only RunState::Stopped excludes a worker from a scatter")
+    else:
+        extra = sorted(set(compared) - {"Stopped"})
+        cb, bi = compared[extra[0]][0]
+        rg.violation(key, cb.where(bi), "the scatter filter also leaves out workers in state %s: a live worker is neither sent the request nor counted in the expected responses, and the client is answered OK although that worker never acknowledged" % extra)
     # ---------------- R-C09-d scatter accounting -------------------------------
     rd = chk.rule("R-C09-d", "T3", "scatter_on: expected responses = in-flight insertions; finishing purges in_flight", floor=2)
     so = F.body("sozu::command::server::Server::scatter_on")
